@@ -1393,6 +1393,11 @@ def threshold_texts(rng, quick):
         out.append(('p cnf 5 1\n%s1 %s2 0%s\n' % (' ' * t, '0' * t, ' ' * t), 't leading zeros, line padded with t blanks'))
         out.append(('p cnf %s%d 1\n-%s3 0\n' % ('0' * t, 5, '0' * (t - 1)), 't leading zeros in the problem line'))
         out.append(('p cnf %d 1\n%s 0' % (t, ' '.join(str(t) for _ in range(t))), 'literal t repeated t times'))
+    # physical lines of more than 65536 and 131072 characters
+    w = 30000
+    out.append(('p cnf %d 1\n%s 0\n' % (w, ' '.join(str((-1) ** i * (1 + (i * 7) % w)) for i in range(w))), 'one clause of 30000 literals on one line'))
+    out.append(('c %s\np cnf 2 1\n1 -2 0\n' % ('1 0 ' * 35000), 'comment line of 140000 characters'))
+    out.append(('p cnf 2 1%s\n1 -2 0\n' % (' ' * 70000), 'problem line padded to 70000 characters'))
     for t in BIGINTS:
         out.append(('p cnf %d 2\n%d -%d 0\n-%d 0\n' % (t, t, t, t - 1), 'n = literal = big'))
         out.append(('p cnf %d 1\n%d 0\n' % (t, t + 1), 'literal n+1, big'))
@@ -1421,26 +1426,27 @@ MIB = 1 << 20
 VIAS = ('StringIO', 'name', 'name-by-extension', 'fileobj', 'stdout')
 
 
-def write_via(F, via, header, names, path):
-    """write F as DIMACS in one of the ways to_file accepts and return the text exactly as stored"""
+def write_via(F, via, header, names, path, fmt='dimacs', **kw):
+    """write F (format fmt) in one of the ways to_file accepts and return the text exactly as stored;
+    for 'name-by-extension' the path must carry the extension that selects fmt"""
     import sys
     if via == 'StringIO':
         s = io.StringIO()
-        F.to_file(s, fileformat='dimacs', export_header=header, export_varnames=names)
+        F.to_file(s, fileformat=fmt, export_header=header, export_varnames=names, **kw)
         return s.getvalue()
     if via == 'name':
-        F.to_file(path, fileformat='dimacs', export_header=header, export_varnames=names)
-    elif via == 'name-by-extension':              # path ends in .cnf: DIMACS is the documented default
-        F.to_file(path, export_header=header, export_varnames=names)
+        F.to_file(path, fileformat=fmt, export_header=header, export_varnames=names, **kw)
+    elif via == 'name-by-extension':              # DIMACS is the documented default, .tex / .opb select the other two
+        F.to_file(path, export_header=header, export_varnames=names, **kw)
     elif via == 'fileobj':
         with open(path, 'w', encoding='utf-8') as f:
-            F.to_file(f, fileformat='dimacs', export_header=header, export_varnames=names)
+            F.to_file(f, fileformat=fmt, export_header=header, export_varnames=names, **kw)
     elif via == 'stdout':                         # fileorname=None: the standard output of the process, here a real file
         old = sys.stdout
         try:
             with open(path, 'w', encoding='utf-8') as f:
                 sys.stdout = f
-                F.to_file(None, fileformat='dimacs', export_header=header, export_varnames=names)
+                F.to_file(None, fileformat=fmt, export_header=header, export_varnames=names, **kw)
         finally:
             sys.stdout = old
     else:
